@@ -32,6 +32,10 @@
 
 #include "mp/solver-base.h"
 
+#ifdef VERIF_COVERAGE
+extern "C" void __gcov_dump(void);
+#endif
+
 namespace {
 
 std::string hex(const std::string &s) {
@@ -64,7 +68,21 @@ std::vector<std::string> split(const std::string &s, char sep) {
   return r;
 }
 
-struct OptSpec { std::string kind, chk; std::vector<std::string> names; };
+struct OptSpec {
+  char op = 'O';                     // 'O' declare, 'A' out-of-line synonym, 'B' inline synonyms added later
+  std::string kind, chk;             // O
+  std::string real, where;           // A, B
+  std::vector<std::string> names;
+  int slot = -1;                     // O: index of the value slot
+};
+
+struct Table {
+  bool isStd = false;
+  int flags = 0;
+  std::string solver = "dummy";
+  std::vector<OptSpec> ops;
+  int nslots = 0;
+};
 
 struct Case {
   char op;                      // 'T', 'O', 'C', '?'
@@ -77,7 +95,7 @@ struct Case {
   std::vector<std::string> argv;
 };
 
-std::map<std::string, std::vector<OptSpec>> g_tables;
+std::map<std::string, Table> g_tables;
 
 /// exact-size heap copy: the NUL is the last byte of the block.
 char *exact(const std::string &s) {
@@ -143,17 +161,38 @@ class HSolver : public mp::BasicSolver {
     else sv[i] = v.to_string();
   }
 
-  explicit HSolver(const std::vector<OptSpec> &specs)
-      : n(specs.size()), iv(n, 0), siv(new int[n]()), sllv(new long long[n]()), dv(new double[n]()),
-        sv(n), bv(new bool[n]()), wlog(n), added(n, false) {
-    for (size_t i = 0; i < n; ++i) {
-      const OptSpec &sp = specs[i];
-      kind.push_back(sp.kind);
-      chk.push_back(sp.chk);
-      std::string names;
-      for (size_t k = 0; k < sp.names.size(); ++k) { if (k) names += ' '; names += sp.names[k]; }
-      wild.push_back(sp.names[0].find('*') != std::string::npos);
+  std::vector<std::vector<int>> liv;
+  std::vector<std::vector<double>> ldv;
+  std::vector<std::vector<std::string>> lsv;
+  bool isStd;
+  int stdFlags;
+
+  static std::string joinNames(const std::vector<std::string> &v) {
+    std::string names;
+    for (size_t k = 0; k < v.size(); ++k) { if (k) names += ' '; names += v[k]; }
+    return names;
+  }
+
+  explicit HSolver(const Table &t)
+      : n(t.nslots), kind(n), chk(n), wild(n, false), iv(n, 0), siv(new int[n + 1]()), sllv(new long long[n + 1]()),
+        dv(new double[n + 1]()), sv(n), bv(new bool[n + 1]()), wlog(n), added(n, false), liv(n), ldv(n), lsv(n),
+        isStd(t.isStd), stdFlags(t.flags) {
+    if (t.isStd)
+      InitMetaInfoAndOptions(t.solver, t.solver + " long", (t.flags & 4) ? 0 : 20240320, t.flags & 3);
+    if (t.isStd && (t.flags & 8)) set_license_info("licensed to the C11 harness");
+    for (const OptSpec &sp : t.ops) {
+      std::string names = joinNames(sp.names);
       try {
+        if (sp.op == 'A') { AddOptionSynonyms_OutOfLine(names.c_str(), sp.real.c_str()); continue; }
+        if (sp.op == 'B') {
+          if (sp.where == "front") AddOptionSynonyms_Inline_Front(names.c_str(), sp.real.c_str());
+          else AddOptionSynonyms_Inline_Back(names.c_str(), sp.real.c_str());
+          continue;
+        }
+        size_t i = sp.slot;
+        kind[i] = sp.kind;
+        chk[i] = sp.chk;
+        wild[i] = sp.names[0].find('*') != std::string::npos;
         const char *nm = names.c_str();
         int ii = static_cast<int>(i);
         if (sp.kind == "int") AddIntOption<HSolver, int>(nm, "", &HSolver::GetInt, &HSolver::SetInt, ii);
@@ -164,16 +203,41 @@ class HSolver : public mp::BasicSolver {
         else if (sp.kind == "str") AddStrOption<HSolver, int>(nm, "", &HSolver::GetStr, &HSolver::SetStr, ii);
         else if (sp.kind == "sstr") AddStoredOption(nm, "", sv[i]);
         else if (sp.kind == "flag") AddStoredOption(nm, "", bv[i]);
+        else if (sp.kind == "lint") AddListOption(nm, "", liv[i]);
+        else if (sp.kind == "ldbl") AddListOption(nm, "", ldv[i]);
+        else if (sp.kind == "lstr") AddListOption(nm, "", lsv[i]);
         else throw std::runtime_error("kind");
         added[i] = true;
       } catch (const std::logic_error &) {
-        // duplicate name: AddOption threw, the table is unchanged
+        // duplicate name (AddOption) or unknown real option (synonym calls): the table is unchanged
       }
+    }
+  }
+
+  /// values of the standard options (slots 0..8 of the model), in declaration order
+  void showStd(std::vector<std::string> &out) {
+    if (!isStd) return;
+    fmt::MemoryWriter w;
+    FindOption("tech:version")->Write(w);
+    std::string v = w.str();
+    out.push_back((v == "true" || v == "1") ? "f1" : "f0");
+    out.push_back("s" + hex(GetStrOption("tech:optionfile")));
+    out.push_back("i" + std::to_string(GetIntOption("tech:wantsol")));
+    out.push_back("i" + std::to_string(GetIntOption("obj:no")));
+    out.push_back("i" + std::to_string(GetIntOption("tech:debug")));
+    if (stdFlags & 2) out.push_back("i" + std::to_string(GetIntOption("obj:multi")));
+    out.push_back("i" + std::to_string(GetIntOption("tech:timing")));
+    if (stdFlags & 1) {
+      out.push_back("i" + std::to_string(GetIntOption("sol:count")));
+      out.push_back("s" + hex(GetStrOption("sol:stub")));
     }
   }
 
   std::string show(size_t i) const {
     const std::string &k = kind[i];
+    if (k == "lint") { std::string r = "w"; for (int v : liv[i]) r += "(:i" + std::to_string(v) + ")"; return r; }
+    if (k == "ldbl") { std::string r = "w"; for (double v : ldv[i]) r += "(:" + showDbl(v) + ")"; return r; }
+    if (k == "lstr") { std::string r = "w"; for (auto &v : lsv[i]) r += "(:s" + hex(v) + ")"; return r; }
     if (wild[i]) {
       std::string r = "w";
       for (auto &e : wlog[i]) r += "(" + hex(e.body) + ":" + e.shown + ")";
@@ -197,6 +261,14 @@ std::string classify(const char *msg) {
   if (m.compare(0, A1.size(), A1) == 0 && m.size() >= A1.size() + A2.size() &&
       m.compare(m.size() - A2.size(), A2.size(), A2) == 0)
     return "a" + hex(m.substr(A1.size(), m.size() - A1.size() - A2.size()));
+  static const std::string F = "Failed to read option file '";
+  if (m.compare(0, F.size(), F) == 0) {
+    size_t e = m.rfind("': ");
+    if (e != std::string::npos && e >= F.size()) return "f" + hex(m.substr(F.size(), e - F.size()));
+  }
+  static const std::string N = "Option files nested too deeply (recursive inclusion?): '";
+  if (m.compare(0, N.size(), N) == 0 && m.size() > N.size() && m.back() == '\'')
+    return "n" + hex(m.substr(N.size(), m.size() - N.size() - 1));
   return "o" + hex(m);
 }
 
@@ -258,31 +330,73 @@ void runCase(const Case &c) {
   for (char *p : blocks) std::free(p);
   for (char *p : argv) std::free(p);
   std::vector<std::string> vals, echo;
-  for (size_t i = 0; i < s.n; ++i) vals.push_back(s.show(i));
-  for (auto &o : oh.outs) echo.push_back(hex(o));
-  std::printf("R %s %s %s | %s | %s | %s\n", c.cid.c_str(), outcome.c_str(), ret.c_str(),
-              join(eh.errs).c_str(), join(vals).c_str(), join(echo).c_str());
+  size_t other = 0;
+  for (auto &o : oh.outs) {
+    if (o.compare(0, 2, "  ") == 0) echo.push_back(hex(o)); else ++other;
+  }
+  s.showStd(vals);
+  for (const OptSpec &sp : it->second.ops) if (sp.op == 'O') vals.push_back(s.show(sp.slot));
+  std::printf("R %s %s %s | %s | %s | %s | p%zu\n", c.cid.c_str(), outcome.c_str(), ret.c_str(),
+              join(eh.errs).c_str(), join(vals).c_str(), join(echo).c_str(), outcome == "ok" ? other : size_t(0));
 }
 
 bool parseLine(const std::string &line, Case &c) {
   std::vector<std::string> f = split(line, ' ');
   c.op = '?';
+  auto names = [](const std::string &field, std::vector<std::string> &out) {
+    for (auto &h : split(field, ',')) { std::string b; if (!unhex(h, b)) return false; out.push_back(b); }
+    return !out.empty();
+  };
   if (f.size() == 2 && f[0] == "T") {
-    g_tables[f[1]] = {};
+    g_tables[f[1]] = Table();
     c.op = 'T'; c.text = "T " + f[1];
+    return true;
+  }
+  if (f.size() == 4 && f[0] == "S") {
+    Table t; t.isStd = true; t.flags = std::atoi(f[2].c_str());
+    if (!unhex(f[3], t.solver)) return false;
+    g_tables[f[1]] = t;
+    c.op = 'T'; c.text = "S " + f[1];
+    return true;
+  }
+  if (f.size() == 3 && f[0] == "F") {
+    std::string n, content;
+    if (!unhex(f[1], n) || !unhex(f[2], content)) return false;
+    if (n.empty() || n.find('/') != std::string::npos) return false;
+    std::ofstream out(n, std::ios::binary);
+    out.write(content.data(), content.size());
+    c.op = 'T'; c.text = "F";
     return true;
   }
   if (f.size() == 5 && f[0] == "O") {
     auto it = g_tables.find(f[1]);
     if (it == g_tables.end()) return false;
     OptSpec sp; sp.kind = f[2]; sp.chk = f[3];
-    static const char *kinds[] = {"int", "sint", "sll", "dbl", "sdbl", "str", "sstr", "flag"};
+    static const char *kinds[] = {"int", "sint", "sll", "dbl", "sdbl", "str", "sstr", "flag", "lint", "ldbl", "lstr"};
     bool okk = false; for (auto k : kinds) okk |= sp.kind == k;
     if (!okk || (sp.chk != "any" && sp.chk != "nonneg" && sp.chk != "bool01")) return false;
-    for (auto &h : split(f[4], ',')) { std::string b; if (!unhex(h, b)) return false; sp.names.push_back(b); }
-    if (sp.names.empty()) return false;
-    c.op = 'O'; c.text = "O " + f[1] + " " + std::to_string(it->second.size());
-    it->second.push_back(sp);
+    if (!names(f[4], sp.names)) return false;
+    sp.slot = it->second.nslots++;
+    c.op = 'O'; c.text = "O " + f[1] + " " + std::to_string(sp.slot + (it->second.isStd ? 9 : 0));
+    it->second.ops.push_back(sp);
+    return true;
+  }
+  if (f.size() == 4 && f[0] == "A") {
+    auto it = g_tables.find(f[1]);
+    if (it == g_tables.end()) return false;
+    OptSpec sp; sp.op = 'A';
+    if (!unhex(f[2], sp.real) || !names(f[3], sp.names)) return false;
+    it->second.ops.push_back(sp);
+    c.op = 'O'; c.text = "A " + f[1];
+    return true;
+  }
+  if (f.size() == 5 && f[0] == "B") {
+    auto it = g_tables.find(f[1]);
+    if (it == g_tables.end()) return false;
+    OptSpec sp; sp.op = 'B'; sp.where = f[2];
+    if ((sp.where != "front" && sp.where != "back") || !unhex(f[3], sp.real) || !names(f[4], sp.names)) return false;
+    it->second.ops.push_back(sp);
+    c.op = 'O'; c.text = "B " + f[1];
     return true;
   }
   if (f.size() == 10 && f[0] == "C") {
@@ -317,6 +431,7 @@ std::string crashClass(const std::string &errfile) {
   std::string cls;
   if (has("heap-buffer-overflow")) cls = "asan-heap-buffer-overflow";
   else if (has("stack-buffer-overflow")) cls = "asan-stack-buffer-overflow";
+  else if (has("stack-overflow")) cls = "stack-overflow";
   else if (has("global-buffer-overflow")) cls = "asan-global-buffer-overflow";
   else if (has("heap-use-after-free")) cls = "asan-use-after-free";
   else if (has("AddressSanitizer")) cls = "asan-other";
@@ -331,6 +446,17 @@ std::string crashClass(const std::string &errfile) {
 int main(int argc, char **argv) {
   if (argc < 2) { std::fprintf(stderr, "usage: h_options <ops> [errfile]\n"); return 2; }
   std::string errfile = argc > 2 ? argv[2] : std::string(argv[1]) + ".stderr";
+  {
+    char abs[4096];
+    std::string e = errfile, o = argv[1];
+    if (realpath(argv[1], abs)) o = abs;
+    if (e[0] != '/') { if (getcwd(abs, sizeof abs)) e = std::string(abs) + "/" + e; }
+    errfile = e;
+    static std::string ops_abs; ops_abs = o; argv[1] = &ops_abs[0];
+    std::string dir = e + ".files";
+    std::string cmd = "rm -rf '" + dir + "' && mkdir -p '" + dir + "'";
+    if (std::system(cmd.c_str()) != 0 || chdir(dir.c_str()) != 0) { std::fprintf(stderr, "cannot create %s\n", dir.c_str()); return 2; }
+  }
   clearenv();
   std::vector<Case> cases;
   {
@@ -361,6 +487,9 @@ int main(int argc, char **argv) {
       }
       *cur = static_cast<long>(cases.size());
       std::fflush(stdout);
+#ifdef VERIF_COVERAGE
+      __gcov_dump();
+#endif
       _exit(0);
     }
     int status = 0;
@@ -373,6 +502,7 @@ int main(int argc, char **argv) {
     else {
       cls = crashClass(errfile);
       if (cls == "died" && WIFSIGNALED(status)) cls = "signal-" + std::to_string(WTERMSIG(status));
+      if (cls == "asan-other" || cls == "stack-overflow-read" || cls == "stack-overflow-write") cls = "stack-overflow";
     }
     std::printf("R %s crash %s\n", cases[at].op == 'C' ? cases[at].cid.c_str() : "?", cls.c_str());
     start = at + 1;
